@@ -52,6 +52,45 @@ macro_rules! iis {
     };
 }
 
+/// Words that cannot be used as `a.word` or `{ word = .. }` in Lua.
+const LUA_KEYWORDS: &[&str] = &[
+    "and", "break", "do", "else", "elseif", "end", "false", "for", "function", "goto", "if", "in",
+    "local", "nil", "not", "or", "repeat", "return", "then", "true", "until", "while",
+];
+
+/// `.field`, or `["field"]` when the field name is a Lua keyword.
+fn field_access(field: &str) -> String {
+    if LUA_KEYWORDS.contains(&field) {
+        format!("[\"{}\"]", field)
+    } else {
+        format!(".{}", field)
+    }
+}
+
+/// `field`, or `["field"]` when the field name is a Lua keyword.
+fn field_key(field: &str) -> String {
+    if LUA_KEYWORDS.contains(&field) {
+        format!("[\"{}\"]", field)
+    } else {
+        field.to_string()
+    }
+}
+
+/// The contents of a Lua string literal denoting exactly `s`.
+fn escape_string(s: &str) -> String {
+    let mut out = String::with_capacity(s.len());
+    for c in s.chars() {
+        match c {
+            '\\' => out.push_str("\\\\"),
+            '\n' => out.push_str("\\n"),
+            '\r' => out.push_str("\\r"),
+            '"' => out.push_str("\\\""),
+            c => out.push(c),
+        }
+    }
+    out
+}
+
 struct Generator<'a, 'b> {
     usage_count: &'a HashMap<Var, usize>,
     out: &'b mut dyn Write,
@@ -115,7 +154,8 @@ impl<'a, 'b> Generator<'a, 'b> {
 
                 IR::Neg(t, a) => ii!(self, t, "(-{})", a),
 
-                IR::Str(t, s) => iis!(self, t, "\"{}\"", s),
+                IR::Str(t, s) => iis!(self, t, "\"{}\"", escape_string(s)),
+                IR::Float(t, f) if f.is_infinite() => iis!(self, t, "math.huge"),
                 IR::Float(t, f) => iis!(self, t, "{:?}", f),
 
                 IR::Equals(t, a, b) => ii!(self, t, "({} == {})", a, b),
@@ -135,7 +175,7 @@ impl<'a, 'b> Generator<'a, 'b> {
                     "__BLOB{{ {} }}",
                     fields
                         .iter()
-                        .map(|(f, v)| format!("{} = {}", f, self.expand(v)))
+                        .map(|(f, v)| format!("{} = {}", field_key(f), self.expand(v)))
                         .collect::<Vec<_>>()
                         .join(", ")
                 ),
@@ -230,7 +270,7 @@ impl<'a, 'b> Generator<'a, 'b> {
                     write!(self.out, "__CRASH(\"{}\")()", msg);
                 }
 
-                IR::Access(t, a, f) => iis!(self, t, "{}.{}", self.expand(a), f),
+                IR::Access(t, a, f) => iis!(self, t, "{}{}", self.expand(a), field_access(f)),
 
                 IR::Copy(t, a) => {
                     if self.usage_count.get(t).unwrap_or(&0) > &0 {
@@ -260,7 +300,7 @@ impl<'a, 'b> Generator<'a, 'b> {
                     if self.usage_count.get(t).unwrap_or(&0) > &0 {
                         let t = self.expand(t);
                         let c = self.expand(c);
-                        write!(self.out, "{}.{} = {}", t, f, c);
+                        write!(self.out, "{}{} = {}", t, field_access(f), c);
                     }
                 }
 
